@@ -114,8 +114,20 @@ def lit_tests_bit(atom, macro, field=None):
 
 
 def control_lits(fn, node):
-    """[(truth, atom)] of branch literals that every path to node must satisfy"""
-    return [(truth, atom) for (_b, truth, atom) in fn.control_literals(node)]
+    """[(truth, atom)] of branch literals that every path to node must satisfy; a node that is reachable through the
+    case labels L1..Ln only of a switch on E contributes `E == Li` (true) when n == 1 - the same test an if-chain
+    would spell `if (E == L1)` - so that rules do not depend on which of the two forms the code uses"""
+    out = [(truth, atom) for (_b, truth, atom) in fn.control_literals(node)]
+    from .engine import switch_cases
+    for sw in switch_cases(fn, node):
+        labs = sw["labels"]
+        if len(labs) == 1 and isinstance(labs[0], dict) and isinstance(sw.get("expr"), dict):
+            cv = labs[0]
+            k = {"k": "i", "c": cv.get("c")}
+            if cv.get("t") and str(cv["t"]).replace("_", "").isalnum() and not str(cv["t"])[0].isdigit():
+                k["m"] = cv["t"]
+            out.append((True, {"k": "b", "o": "==", "l": sw["expr"], "r": k}))
+    return out
 
 
 def guarded_by_bit(fn, node, macro, truth, field=None, resolve=True):
